@@ -101,7 +101,7 @@ class Monitor(object):
             for r in ind.data_records:
                 for name in ("arrival_date", "service_start_date", "service_end_date", "exit_date"):
                     v = getattr(r, name)
-                    if isinstance(v, Decimal) and (Fraction(v) * 20).denominator != 1:
+                    if self.cfg.get("grid", True) and isinstance(v, Decimal) and (Fraction(v) * 20).denominator != 1:
                         self.violate("date_off_the_decimal_grid", {"field": name, "value": str(v), "id": r.id_number, "record_type": r.record_type})
                         return
 
@@ -180,6 +180,14 @@ def focused(tier):
         out.append(two_class_single("exact=%d preempt resume" % k, fam, c=1, K=2, prios=(1, 0), preempt="resume", arrA=DA, arrB=[0.2, 0.4], srvA=DS, srvB=DS,
                                     exact=k, features=["exact", "preempt_prio"]))
         out.append(tandem("exact=%d tandem block" % k, fam, c=(1, 1), caps=(None, 0), K=K, arr=DA, srv=[DS, [0.3, 0.1]], exact=k, features=["exact", "blocking"]))
+    # high precision (binary noise of a float is visible beyond ~17 digits) and samples that Python prints in exponent notation
+    for k in (20, 28):
+        out.append(single("exact=%d renege (high precision)" % k, fam, c=1, K=K, arr=DA, srv=DS, exact=k, classkw={"renege": [[0.3, 0.1]]}, features=["exact", "reneging"]))
+        out.append(cfg("exact=%d cct (high precision)" % k, fam, [node(c=1)],
+                       {"A": klass([DA], [DS], prio=1, cct={"B": [0.3, 0.1]}), "B": klass([[0.2, 0.4]], [DS], prio=0)}, K=2, exact=k, features=["exact", "cct"]))
+    out.append(single("exact=12 tiny samples", fam, c=1, K=K, arr=[0.0000125, 0.1], srv=[0.00003, 0.2], exact=12, grid=False, features=["exact", "tiny"]))
+    out.append(single("exact=28 tiny samples renege", fam, c=1, K=K, arr=[0.0000125, 0.1], srv=[0.2, 0.00003], exact=28, grid=False,
+                      classkw={"renege": [[0.000017, 0.3]]}, features=["exact", "tiny", "reneging"]))
     return out
 
 
